@@ -406,3 +406,26 @@ Proof.
   destruct (G _ _ _ _ _ inv_init r9_init E F) as [m1 Hm1]. unfold c09_ok. now rewrite Hm1.
 Qed.
 
+
+(** * C09: rebuild obligations *)
+
+Lemma owe_step : forall s e s', step s e = Some s' -> ow_step (owe s) e = Some (owe s').
+Proof.
+  intros s [tm a k] s' H. unfold ow_step. cbn [e_k e_by].
+  destruct k; step_inv H; proj_simp; try reflexivity.
+  all: split_ands;
+       match goal with H : negb (owes _ _) = true |- _ => apply negb_true_iff in H; rewrite H end;
+       cbn [negb andb orb]; try reflexivity.
+  all: match goal with H : tstate_eqb ?nw (probe_next ?st false) = true |- _ =>
+         apply tstate_eqb_eq in H; rewrite H; destruct st; reflexivity end.
+Qed.
+
+Theorem accepted_c09_rebuild_ok : forall tr, accepted tr = true -> c09_rebuild_ok tr = true.
+Proof.
+  intros tr H. unfold accepted in H. destruct (run step init tr) as [s|] eqn:E; [|discriminate].
+  assert (G : forall tr s0 s1, run step s0 tr = Some s1 -> run ow_step (owe s0) tr = Some (owe s1)).
+  { clear. induction tr as [|e tr IH]; intros s0 s1 Hrun; cbn in *.
+    - inversion Hrun; reflexivity.
+    - destruct (step s0 e) as [s2|] eqn:E; [|discriminate]. rewrite (owe_step _ _ _ E). apply IH; auto. }
+  unfold c09_rebuild_ok. change (@nil actor) with (owe init). rewrite (G _ _ _ E). reflexivity.
+Qed.
